@@ -410,6 +410,59 @@ def extendLoop (pulls : Bool) : List (K × V) → SM K V Q Unit
 def from_iter (pulls : Bool) (xs : List (K × V)) : SM K V Q Unit :=
   unwindWith (dropMap E) (extendLoop E pulls xs)
 
+/-! ### `serialization.rs` over the abstract serde data model -/
+
+/-- the slice of the serde data model that `serialize_map` / `serialize_seq` produce: the announced
+    length, the entries (`serialize_entry(k, v)`; for a set `serialize_element(k)` with `v = ()`),
+    the end marker. -/
+inductive Tok (K V : Type) where
+  | start (announced : Option Nat)
+  | entry (k : K) (v : V)
+  | fin
+
+/-- what `iter()` yields: the slots below `len`, ascending. -/
+def iterAllR (r : Raw K V) : Nat → Nat → SM K V Q (List (K × V))
+  | 0, _ => pure []
+  | n + 1, i => do
+    let p ← itemRefR r i
+    let rest ← iterAllR r n (i + 1)
+    pure (p :: rest)
+
+/-- `Serialize for Map` / `for Set`: `serialize_map(Some(self.len()))`, one `serialize_entry` per
+    item of `self.iter()`, `end()`.  The announced length is read from `len`, the entries come from
+    the iteration — two different sources in the code. -/
+def serializeR (r : Raw K V) : SM K V Q (List (Tok K V)) := do
+  let l ← (if r.len ≤ r.cap then iterAllR r r.len 0 else throwP .oob)
+  pure (.start (some r.len) :: l.map (fun p => .entry p.1 p.2) ++ [.fin])
+
+/-- `K::deserialize` / `V::deserialize`: a new object equal in content (fresh identity, like a
+    clone, but not a callback that can be made to panic). -/
+def decodeK (k : K) : SM K V Q K := fun s =>
+  .ok (E.clK s.w.nextId k) { s with w := { s.w with nextId := s.w.nextId + 1 } }
+
+def decodeV (v : V) : SM K V Q V := fun s =>
+  if E.vGlue then .ok (E.clV s.w.nextId v) { s with w := { s.w with nextId := s.w.nextId + 1 } }
+  else .ok v s
+
+/-- `visit_map` / `visit_seq`: `while let Some((key, value)) = access.next_entry()? { m.insert(key, value); }`.
+    Runs on the local `m`; an old value returned by `insert` is dropped at the `;`. -/
+def visitLoop : List (Tok K V) → SM K V Q Unit
+  | .entry k v :: rest => do
+    let k' ← decodeK E k
+    let v' ← decodeV E v
+    match ← insert E k' v' with
+    | some old => dropV E old
+    | none => pure ()
+    visitLoop rest
+  | _ => pure ()
+
+/-- `Deserialize`: runs with `s.r = Raw.new cap` (the local `m` of the visitor); if `insert`
+    unwinds (more distinct keys than capacity) the local is dropped. -/
+def deserializeInto (toks : List (Tok K V)) : SM K V Q Unit :=
+  unwindWith (dropMap E) (match toks with
+    | .start _ :: rest => visitLoop E rest
+    | _ => pure ())
+
 /-! ### `drain.rs` and the consuming iterator -/
 
 /-- `drain()`: publish `len = 0`; the iterator owns the old prefix `[0, old_len)`. -/
